@@ -24,16 +24,22 @@ ENCODED = ["twisted.python.logfile:LogFile.write", "twisted.python.logfile:LogFi
            "twisted.python.logfile:BaseLogFile.write", "twisted.python.logfile:BaseLogFile._openFile",
            "twisted.python.logfile:BaseLogFile.reopen", "twisted.python.logfile:BaseLogFile.__init__",
            "twisted.python.logfile:BaseLogFile.close", "twisted.python.logfile:BaseLogFile.flush"]
-BOUNDS = {"quick": {"writes": 4, "steps": 15}, "thorough": {"writes": 6, "steps": 28}}
+BOUNDS = {"quick": {"writes": 4, "steps": 15, "pn_lo": 8, "pn_hi": 12, "psteps": 16},
+          "thorough": {"writes": 6, "steps": 28, "pn_lo": 8, "pn_hi": 12, "psteps": 32}}
 B = {}
 BOUNDS_TEXT = ("exactly `writes` write() calls of any lengths >= 0 (zero-length included) into a fresh "
                "directory; any rotateLength >= 0; maxRotatedFiles in {None, 1, 2}; at most one text write "
                "(any position) whose UTF-8 length is between 1x and 4x its character count; at most one "
                "reopen() before any write; crash at every filesystem step 0..steps (more than any run makes) "
                "including torn data writes of every length, followed by a restart (new LogFile on the same "
-               "directory) that performs the remaining writes")
+               "directory) that performs the remaining writes.  Pre-state runs: a directory that already holds "
+               "log.1 .. log.N (N = 8..12, each with its own payload of any length >= 1) and a current file, "
+               "maxRotatedFiles in {None, 11}, two writes of any lengths (0-2 rotations); and the same with N = "
+               "pn_lo..pn_hi and a crash at every filesystem step 0..psteps (quick: all of the first rotation; "
+               "thorough: both) followed by a restart")
 OUTSIDE = ["more than `writes` writes per run; more than one text write or reopen per run",
-           "pre-existing rotated files from an earlier configuration; maxRotatedFiles > 2 or 0",
+           "pre-existing rotated files other than a gap-free log.1..log.N with N <= 12; maxRotatedFiles other "
+           "than None, 1, 2 (fresh directory) / None, 11 (pre-state)",
            "directories that are not writable (rotate() then silently keeps the old file); DailyLogFile; "
            "LogReader; explicit rotate() calls by the application (only size-triggered rotation)",
            "payload *content*: LogFile is data-oblivious; any attempt to inspect a payload raises in the harness",
@@ -42,7 +48,9 @@ OUTSIDE = ["more than `writes` writes per run; more than one text write or reope
 ASSUMPTIONS = ["fake filesystem contract: rename/remove are atomic; a crashed write leaves a prefix of its data; "
                "data and directory operations become durable in program order; after the crash no further "
                "call of the dead process reaches the disk; model validated against the real OS on a script of "
-               "50 calls on every run",
+               "70 calls on every run",
+               "LogFile opens its file unbuffered (buffering=0), so each write() is one disk step; the model's "
+               "buffered file objects (validated against CPython's) are not involved",
                "payloads are opaque spans with symbolic length under the solver (content access raises "
                "ContentAccess); the text payload is a str subclass whose len() is its character count and "
                "whose encode() yields a span of its byte count; in replay real bytes / real str are written",
@@ -257,6 +265,161 @@ def rotate_crash(lens: List[int], rot: int, maxr: int, crash_at: int, cut: int) 
         return fakefs.is_suffix_of_stream(total, stream, _empty())
 
 
+def _pick_n(n0):
+    """the symbolic number of pre-existing rotated files as a concrete one (one path per value)"""
+    for k in range(8, 13):
+        if n0 == k:
+            return k
+    return 12
+
+
+def _prestate(fs, n, plen, clen):
+    """log.n (oldest) .. log.1 and a current file, every one with its own payload; returns the stream"""
+    stream = []
+    for i in range(n, 0, -1):
+        c = _payload(10 + i, plen)
+        fs.put("%s.%d" % (PATH, i), c)
+        stream.append(c)
+    cur = _payload(9, clen)
+    fs.put(PATH, cur)
+    stream.append(cur)
+    return stream
+
+
+def _listing_ok(lf, fs):
+    """listLogs() reports the integer suffixes in increasing order, and they are the files on disk"""
+    got = lf.listLogs()
+    ids, _ = _disk(fs)
+    if ids is None or got != ids:
+        return False
+    for a, b_ in zip(got, got[1:]):
+        if not a < b_:
+            return False
+    return True
+
+
+def prestate(n0: int, plen: int, clen: int, lens: List[int], rot: int, maxr: int) -> bool:
+    """
+    pre: 8 <= n0 <= 12 and plen >= 1 and clen >= 0
+    pre: len(lens) == 2 and all(n >= 0 for n in lens)
+    pre: rot >= 0 and maxr in (-1, 11)
+    post: _
+    """
+    n = _pick_n(n0)
+    fs = FakeFS(empty=_empty())
+    fs.dirs.add("/d")
+    stream = _prestate(fs, n, plen, clen)
+    with installed(fs, _logfile):
+        lf = _mk(rot, maxr)
+        if not _listing_ok(lf, fs):
+            return False
+        for i in range(len(lens)):
+            raw = _payload(i, lens[i])
+            before = len(fs.get(PATH))
+            nrot = len(_rotations(fs))
+            lf.write(raw)
+            stream.append(raw)
+            if len(_rotations(fs)) == nrot and rot > 0 and before >= rot:
+                return False                     # wrote into a file that had reached rotateLength
+            if not _listing_ok(lf, fs):
+                return False
+        lf.close()
+        cover()
+        ids, parts = _disk(fs)
+        sizes = _rotations(fs)
+        for sz in sizes:
+            if rot == 0 or sz < rot:
+                return False
+        if len(sizes) > 0:
+            cover("rotated")
+        if len(sizes) > 1:
+            cover("rotated_twice")
+        if len(sizes) == 0:
+            keep = n
+        elif maxr < 0 or n + len(sizes) < maxr:
+            keep = n + len(sizes)
+        else:
+            keep = maxr
+            cover("dropped")
+        if ids != list(range(1, keep + 1)):
+            return False
+        total = _cat(parts)
+        if maxr < 0:
+            return total == _cat(stream)          # nothing overwritten, lost or reordered
+        return fakefs.is_suffix_of_stream(total, stream, _empty())
+
+
+def prestate_crash(n0: int, plen: int, clen: int, l1: int, l2: int, rot: int, maxr: int, crash_at: int,
+                   cut: int) -> bool:
+    """
+    pre: B['pn_lo'] <= n0 <= B['pn_hi'] and plen >= 1 and clen >= 0 and l1 >= 0 and l2 >= 0
+    pre: rot >= 0 and maxr in (-1, 11)
+    pre: 0 <= crash_at <= B['psteps'] and cut >= 0
+    post: _
+    """
+    n = _pick_n(n0)
+    fs = FakeFS(empty=_empty())
+    fs.dirs.add("/d")
+    stream = _prestate(fs, n, plen, clen)
+    lens = [l1, l2]
+    with installed(fs, _logfile):
+        fs.arm(crash_at, cut)
+        i = 0
+        writing = False
+        lf = None
+        try:
+            lf = _mk(rot, maxr)
+            while i < 2:
+                raw = _payload(i, lens[i])
+                writing = True
+                lf.write(raw)
+                if fs.crashed:
+                    break
+                writing = False
+                stream.append(raw)
+                i += 1
+        except Crash:
+            pass
+        if fs.crashed:
+            cover("crashed")
+            if writing:
+                if fs.log[-1][2][0] == "write":
+                    m = lens[i]
+                    stream.append(_payload(i, m)[:cut] if cut < m else _payload(i, m))
+                else:
+                    cover("in_rotate")
+                i += 1
+            fs.reboot()
+            lf = _mk(rot, maxr)
+            if not _listing_ok(lf, fs):
+                return False
+            while i < 2:
+                raw = _payload(i, lens[i])
+                lf.write(raw)
+                stream.append(raw)
+                i += 1
+        if not _listing_ok(lf, fs):
+            return False
+        lf.close()
+        cover()
+        ids, parts = _disk(fs)
+        if maxr >= 0 and len(ids) > (maxr if maxr > n else n):
+            return False
+        total = _cat(parts)
+        if maxr < 0:
+            return total == _cat(stream)
+        return fakefs.is_suffix_of_stream(total, stream, _empty())
+
+
+def _sh_pre(tier):
+    return [("n0 == %d" % k, "maxr == %d" % m) for k in range(8, 13) for m in (-1, 11)]
+
+
+def _sh_precrash(tier):
+    bb = BOUNDS[tier]
+    return [("n0 == %d" % k, "maxr == %d" % m) for k in range(bb["pn_lo"], bb["pn_hi"] + 1) for m in (-1, 11)]
+
+
 def _sh_rot(tier):
     out = []
     for m in (-1, 1, 2):
@@ -279,6 +442,10 @@ HARNESSES = [
       timeout={"quick": 150, "thorough": 900}),
     H(rotate_crash, shards=_sh_crash, labels=("end", "crashed", "torn", "in_rotate"),
       timeout={"quick": 150, "thorough": 1200}),
+    H(prestate, shards=_sh_pre, labels=("end", "rotated", "rotated_twice", "dropped"),
+      timeout={"quick": 150, "thorough": 600}),
+    H(prestate_crash, shards=_sh_precrash, labels=("end", "crashed", "in_rotate"),
+      timeout={"quick": 150, "thorough": 900}),
 ]
 
 VECTORS = {
@@ -289,6 +456,13 @@ VECTORS = {
         ([5, 5, 5], 0, -1, 0, 5, 1),
         ([4, 0, 9], 4, 2, 2, 36, 0),
         ([1, 1, 1, 1], 1, 2, -1, 0, -1),       # three rotations, two files kept
+    ],
+    "prestate": [
+        (10, 3, 5, [1, 1], 5, -1), (9, 1, 1, [1, 1], 1, -1), (12, 2, 4, [4, 4], 4, 11), (8, 1, 0, [1, 1], 3, 11),
+    ],
+    "prestate_crash": [
+        (10, 3, 5, 1, 1, 5, -1, 3, 0), (9, 1, 1, 1, 1, 1, -1, 10, 0), (11, 1, 1, 1, 1, 1, 11, 2, 0),
+        (10, 1, 1, 4, 1, 1, -1, 12, 2),
     ],
     "rotate_crash": [
         ([10, 10, 10], 10, -1, 4, 0), ([10, 10, 10], 10, 1, 6, 0), ([10, 10, 10], 10, 2, 9, 3),
